@@ -70,6 +70,9 @@ void h_C01_k_ycw(void)
 		ASSERT((int)r == first + 7 * (cnt + c), "ycw_get_yday == yday of the |c|-th last w-day of the year");
 		if (cnt == 53) { SENTINEL("k ycw 53 weekdays"); }
 		SENTINEL("k ycw negative");
+	} else {
+		ASSERT(r == 0U, "ycw_get_yday: a year without a 53rd (-53rd) such weekday has no such day (0)");
+		SENTINEL("k ycw no such weekday");
 	}
 	SENTINEL("k ycw");
 }
